@@ -22,6 +22,9 @@ verus! {
 
 #[derive(PartialEq, Eq, Structural, Clone, Copy, Debug)]
 pub struct StreamId(pub u32);
+impl StreamId {
+    pub const MAX: StreamId = StreamId(0x7fff_ffff);
+}
 #[derive(PartialEq, Eq, Structural, Clone, Copy, Debug)]
 pub struct Reason(pub u32);
 impl Reason {
@@ -78,15 +81,17 @@ pub struct GoAway {
 impl GoAway {
     #[verifier::external_body]
     pub fn go_away(&mut self, f: frame::GoAway)
-        ensures *final(self) == (GoAway { graceful: Ghost(old(self).graceful@.push(f)), going_away_reason: final(self).going_away_reason, ..*old(self) }),
+        ensures *final(self) == (GoAway { graceful: Ghost(old(self).graceful@.push(f)), going_away_reason: Some(f.error_code), ..*old(self) }),
     { unimplemented!() }
     #[verifier::external_body]
     pub fn go_away_now(&mut self, f: frame::GoAway)
         ensures *final(self) == (GoAway { now: Ghost(old(self).now@.push(f)), going_away_reason: final(self).going_away_reason, ..*old(self) }),
+            final(self).going_away_reason is Some,     // v_go_away: either one is recorded already or this one is
     { unimplemented!() }
     #[verifier::external_body]
     pub fn go_away_from_user(&mut self, f: frame::GoAway)
         ensures *final(self) == (GoAway { from_user: Ghost(old(self).from_user@.push(f)), going_away_reason: final(self).going_away_reason, ..*old(self) }),
+            final(self).going_away_reason is Some,
     { unimplemented!() }
     /// `self.go_away.going_away().map_or(false, |frame| frame.reason() == reason)` written out
     pub fn going_away_with_reason(&self, reason: Reason) -> (r: bool)
@@ -180,6 +185,14 @@ impl ReceivedPing {
 }
 pub struct PingPong { pub shutdown_pending: bool }
 impl PingPong {
+    /// PingPong::ping_shutdown (Kani unit pp_new_take_shutdown): queues the graceful-shutdown PING; the real body asserts
+    /// that none is outstanding
+    #[verifier::external_body]
+    pub fn ping_shutdown(&mut self)
+        requires !old(self).shutdown_pending,
+        ensures final(self).shutdown_pending,
+    { unimplemented!() }
+
     #[verifier::external_body]
     pub fn recv_ping(&mut self, frame: u8) -> (r: ReceivedPing)
         ensures r.shutdown ==> old(self).shutdown_pending && !final(self).shutdown_pending, !r.shutdown ==> final(self).shutdown_pending == old(self).shutdown_pending,
@@ -198,6 +211,11 @@ pub struct DynConnection {
     pub ping_pong: PingPong,
 }
 
+/// I-shutdown: the graceful-shutdown PING is only outstanding after a GOAWAY was queued
+pub open spec fn i_shutdown(c: DynConnection) -> bool {
+    c.ping_pong.shutdown_pending ==> c.go_away.going_away_reason is Some
+}
+
 impl DynConnection {
     /// `self.error.as_ref().map(|f| f.reason() == Reason::NO_ERROR) == Some(true)` written out
     pub fn peer_said_no_error(&self) -> (r: bool)
@@ -210,7 +228,7 @@ impl DynConnection {
     //@spec         final(self).streams.go_aways@ == old(self).streams.go_aways@.push(id) && final(self).go_away.graceful@ == old(self).go_away.graceful@.push(frame::GoAway { last_stream_id: id, error_code: e }),
     //@spec         final(self).state == old(self).state && final(self).error == old(self).error && final(self).ping_pong == old(self).ping_pong,
     //@spec         final(self).streams == (DynStreams { go_aways: final(self).streams.go_aways, ..old(self).streams }),
-    //@spec         final(self).go_away.now@ == old(self).go_away.now@ && final(self).go_away.from_user@ == old(self).go_away.from_user@,
+    //@spec         final(self).go_away.now@ == old(self).go_away.now@ && final(self).go_away.from_user@ == old(self).go_away.from_user@ && final(self).go_away.going_away_reason == Some(e),
     //@end
 
     //@extract src/proto/connection.rs DynConnection::go_away_now
@@ -218,6 +236,7 @@ impl DynConnection {
     //@spec         // C15: the id in our GOAWAY is the highest peer stream handed to the application
     //@spec         final(self).go_away.now@ == old(self).go_away.now@.push(frame::GoAway { last_stream_id: old(self).streams.last_processed_id, error_code: e }),
     //@spec         final(self).state == old(self).state && final(self).streams == old(self).streams && final(self).error == old(self).error,
+    //@spec         final(self).ping_pong == old(self).ping_pong && final(self).go_away.going_away_reason is Some,
     //@end
 
     //@extract src/proto/connection.rs DynConnection::go_away_now_data
@@ -227,6 +246,7 @@ impl DynConnection {
     //@spec         final(self).go_away.now@ == old(self).go_away.now@.push(frame::GoAway { last_stream_id: old(self).streams.last_processed_id, error_code: e }),
     //@spec         final(self).state == old(self).state && final(self).streams == old(self).streams && final(self).error == old(self).error,
     //@spec         final(self).go_away.graceful@ == old(self).go_away.graceful@ && final(self).go_away.from_user@ == old(self).go_away.from_user@,
+    //@spec         final(self).ping_pong == old(self).ping_pong && final(self).go_away.going_away_reason is Some,
     //@end
 
     //@extract src/proto/connection.rs DynConnection::go_away_from_user
@@ -251,7 +271,8 @@ impl DynConnection {
     //@spec         old(self).go_away.going_away_reason != Some(reason) ==> final(self).streams.errors@ == old(self).streams.errors@.push(Error::GoAway(reason, initiator))
     //@spec             && final(self).go_away.now@ == old(self).go_away.now@.push(frame::GoAway { last_stream_id: old(self).streams.last_processed_id, error_code: reason })
     //@spec             && final(self).streams.resets@ == old(self).streams.resets@ && final(self).state == old(self).state,
-    //@spec         final(self).error == old(self).error,
+    //@spec         final(self).error == old(self).error && final(self).ping_pong == old(self).ping_pong,
+    //@spec         i_shutdown(*old(self)) ==> i_shutdown(*final(self)),
     //@end
 
     //@extract src/proto/connection.rs DynConnection::handle_poll2_result
@@ -270,6 +291,7 @@ impl DynConnection {
     //@spec         // Initiator::Remote (the real debug_assert_eq!, an obligation of the callers: proto::Error constructors)
     //@spec         result matches Err(Error::Reset(_, _, i)) ==> i != Initiator::User,
     //@spec     ensures
+    //@spec         i_shutdown(*old(self)) ==> i_shutdown(*final(self)),
     //@spec         match result {
     //@spec             // the read side ended cleanly: flush and close
     //@spec             Ok(()) => r is Ok && final(self).state == State::Closing(Reason::NO_ERROR, Initiator::Library) && final(self).streams == old(self).streams && final(self).go_away == old(self).go_away,
@@ -313,8 +335,9 @@ impl DynConnection {
     //@spec     requires
     //@spec         // I-shutdown: the graceful-shutdown PING is only outstanding after the first GOAWAY was queued
     //@spec         // (Connection::go_away_gracefully: go_away(MAX, NO_ERROR) then ping_shutdown())
-    //@spec         old(self).ping_pong.shutdown_pending ==> old(self).go_away.going_away_reason is Some,
+    //@spec         i_shutdown(*old(self)),
     //@spec     ensures
+    //@spec         i_shutdown(*final(self)),
     //@spec         final(self).state == old(self).state,
     //@spec         match frame {
     //@spec             Some(Frame::Headers(f)) => final(self).streams.calls@ == old(self).streams.calls@.push(Call::Headers(f)) && final(self).go_away == old(self).go_away && final(self).error == old(self).error,
@@ -339,6 +362,28 @@ impl DynConnection {
     //@spec         // errors come from the streams layer only, and pass through unchanged (nothing else can fail here)
     //@spec         r is Err ==> (frame matches Some(Frame::Headers(_))) || (frame matches Some(Frame::Data(_))) || (frame matches Some(Frame::Reset(_)))
     //@spec             || (frame matches Some(Frame::PushPromise(_))) || (frame matches Some(Frame::WindowUpdate(_))) || (frame matches Some(Frame::GoAway(_))),
+    //@end
+}
+
+/// Connection<T, P, B>, reduced to its `inner` (ConnectionInner's fields are the ones DynConnection borrows)
+pub struct Connection { pub inner: DynConnection }
+
+
+impl Connection {
+    // C15 graceful shutdown, first step: GOAWAY(2^31-1, NO_ERROR) — "no new streams, everything in flight will be
+    // processed" — then the PING whose ACK triggers the second GOAWAY (recv_frame above).  A shutdown already under way is
+    // not restarted.  Establishes I-shutdown, the precondition of recv_frame.
+    // Listed substitution: `self.inner.as_dyn()` (which lends ConnectionInner's fields to a DynConnection) => `self.inner`.
+    //@extract src/proto/connection.rs Connection::go_away_gracefully
+    //@subst self.inner.as_dyn().go_away(StreamId::MAX, Reason::NO_ERROR);=>self.inner.go_away(StreamId::MAX, Reason::NO_ERROR);
+    //@spec     requires i_shutdown(old(self).inner),
+    //@spec     ensures
+    //@spec         i_shutdown(final(self).inner),
+    //@spec         old(self).inner.go_away.going_away_reason is Some ==> *final(self) == *old(self),
+    //@spec         old(self).inner.go_away.going_away_reason is None ==>
+    //@spec             final(self).inner.go_away.graceful@ == old(self).inner.go_away.graceful@.push(frame::GoAway { last_stream_id: StreamId(0x7fff_ffff), error_code: Reason::NO_ERROR })
+    //@spec             && final(self).inner.ping_pong.shutdown_pending
+    //@spec             && final(self).inner.streams.errors@ == old(self).inner.streams.errors@ && final(self).inner.streams.calls@ == old(self).inner.streams.calls@,
     //@end
 }
 
